@@ -373,7 +373,7 @@ class CallMixin:
     def call_target(self, target, args, kwargs, st, n):
         if target not in self.db.contracts and target not in self.db.assumed:
             target = self.resolve_reexport(target)
-        cc = self.db.contracts.get(target) or self.db.assumed.get(target)
+        cc = self.db.callee_contract(target)
         if cc is not None and not self.opt("inline_" + target.split(".")[-1], False):
             return self.call_with_contract(cc, target, args, kwargs, st, n)
         try:
